@@ -490,7 +490,8 @@ def run(ctx):
             apply_op(pair.sql, norm_op(o), errors)
             nst = PLAN.count
             PLAN.arm(0)
-            for k in sorted({2, 3, nst // 4, nst // 2, nst // 2 + 1, 3 * nst // 4, nst - 2, nst - 1, nst}):
+            # (nst + 5: no failure at all - the removal of all 520 goes through, and every one of them is gone and counted)
+            for k in sorted({2, 3, nst // 4, nst // 2, nst // 2 + 1, 3 * nst // 4, nst - 2, nst - 1, nst, nst + 5}):
                 if k < 1:
                     continue
                 pair.restore(snap)
@@ -499,7 +500,7 @@ def run(ctx):
                 metas.append({"part": "failpoint", "op": o, "k": k, "fired": ev["fired"], "names": 520})
                 ctx.count(("bigfail", json.dumps(o, sort_keys=True), k))
                 big_fired += bool(ev["fired"])
-        if big_fired < 8:
+        if big_fired < 6:
             raise util.MachineryError("vacuity: only %d injected failures fired in the large removal" % big_fired)
         if fired_total < 30:
             raise util.MachineryError("vacuity: only %d injected storage failures fired" % fired_total)
